@@ -319,7 +319,9 @@ def obs_C18(j, case):
 
 
 def obs_C19(j, case):
-    return [outcome(j)[0] == "crash" and "crash" or "no-crash"]
+    o = outcome(j)
+    # the outcome class, with the error tag for information (crash or not is what the property is about)
+    return ["crash" if o[0] == "crash" else "no-crash", o[0], o[1].split("(")[0]]
 
 
 OBS = {"C01": obs_C01, "C02": obs_C02, "C03": obs_C03, "C04": obs_C04, "C05": obs_C05, "C06": obs_all,
@@ -348,5 +350,5 @@ PROFILES = {
     "C17": {"toplevel": 0.9, "gp": 0.6, "cond": 0.4, "missing_key": 0.0, "paths": 0.05, "single": 0.25},
     "C18": {"tail": 0.9, "single": 0.25, "missing_key": 0.0, "paths": 0.05},
     "C19": {},
-    "C20": {"dpath": 0.6, "header": 0.5, "partial": 0.5},
+    "C20": {"dpath": 0.6, "header": 0.5, "partial": 0.5, "dup_opts": 0.5, "eq_vals": 0.5, "paths": 0.6, "cond": 0.4},
 }
